@@ -1,6 +1,6 @@
 (* C10 — property theorems added by the review round (kept in a file of their own so that
    C10/Properties.v, which coq/C02 requires, stays untouched).  Same conventions as Properties.v. *)
-From Tetl Require Import Lib.Base C10.Model C10.Spec C10.ProofsParse C10.ProofsIdiv.
+From Tetl Require Import Lib.Base C10.Model C10.Spec C10.ProofsParse C10.ProofsIdiv C10.ProofsNcS.
 Local Open Scope Z_scope.
 
 (** ** etl::idiv (include/etl/_math/idiv.hpp) for ALL operands of the type (from_integer only ever
@@ -40,3 +40,30 @@ Proof.
   intros A d HA Hd. exact (would_overflow_spec t base A d Hbits Hb HA Hd).
 Qed.
 Print Assumptions C10_overflow_checker_constructed.
+
+(** ** to_integer with check_overflow = false on the signed types narrower than int (signed char, short;
+       [narrow_signed]: signed, 8..16 bits): for EVERY character sequence the call has no undefined
+       behaviour (the accumulation happens in int and is converted back modulo 2^bits) and returns the
+       negated digit run wrapped into the type — as it is after a minus sign, negated otherwise, except
+       that the code's final "value == min" test reports overflow when the wrapped value is min.  With
+       C10_to_integer_unchecked (unsigned types; every type where the checked conversion succeeds) the
+       only texts left without a theorem are the too long ones for int and wider signed types, where the
+       C++ code has genuine signed overflow (modelled as UB, observed through the sanitizer trap). *)
+Theorem C10_to_integer_unchecked_signed_narrow : forall t skipws plus s base,
+  narrow_signed t -> 2 <= base <= 36 ->
+  to_integer_nc_m t skipws plus s base = Ok (nc_signed_narrow_spec t skipws plus s base).
+Proof. exact to_integer_nc_signed_narrow. Qed.
+Print Assumptions C10_to_integer_unchecked_signed_narrow.
+
+(* non-vacuity of the review round's theorems: concrete instances *)
+Example C10_ext_nonvacuous :
+  narrow_signed i8 /\ narrow_signed i16
+  /\ idiv_m i32 (-7) 2 = Ok (-3, -1) /\ idiv_m i32 7 (-2) = Ok (-3, 1)
+  /\ idiv_m i8 (-128) (-1) = Ok (-128, 0) /\ idiv_m i64 (imin i64) (-1) = UB SignedOverflow
+  /\ in_ty i8 (Z.quot (-128) (-1)) = false
+  (* to_integer<signed char, unchecked>("300") = 44, ("128") reports overflow (wrapped value is min), ("-200") = 56 *)
+  /\ to_integer_nc_m i8 false false [51; 48; 48] 10 = Ok (3%nat, TiNone, 44)
+  /\ to_integer_nc_m i8 false false [49; 50; 56] 10 = Ok (0%nat, TiOverflow, 0)
+  /\ to_integer_nc_m i8 false false [45; 50; 48; 48] 10 = Ok (4%nat, TiNone, 56)
+  /\ checker_m i8 10 = Ok (-12, 8) /\ checker_m u8 10 = Ok (25, 5).
+Proof. unfold narrow_signed. vm_compute. repeat split; congruence. Qed.
